@@ -809,6 +809,7 @@ pub fn cases(prop: &str, t: Tier, seed: u64) -> Vec<Case> {
                 let keep: Vec<String> = c.lines.iter().filter(|l| !l.starts_with("q 0 ")).cloned().collect();
                 c.lines = keep;
                 c.l("enc 0");
+                c.l("wf 0");
                 c.l("mk 1 serde 0");
                 c.l("eq 0 1");
                 c.l("enc 1");
@@ -825,6 +826,7 @@ pub fn cases(prop: &str, t: Tier, seed: u64) -> Vec<Case> {
                 c.l("mk 3 serde 0");
                 c.l("eq 0 3");
                 c.l("enc 1");
+                c.l("wf 1");
                 c.l("mk 2 serde 1");
                 c.l("eq 1 2");
                 c.l("enc 2");
@@ -838,6 +840,7 @@ pub fn cases(prop: &str, t: Tier, seed: u64) -> Vec<Case> {
                 let keep: Vec<String> = c.lines.iter().filter(|l| !l.starts_with("q 1 ")).cloned().collect();
                 c.lines = keep;
                 c.l("enc 1");
+                c.l("wf 1");
                 c.l("mk 2 serde 1");
                 c.l("eq 1 2");
                 c.l("enc 2");
